@@ -92,6 +92,60 @@ func CheckParenExpr(x ast.Expr) ast.Expr {
 	return x
 }
 
+// CheckHeaderExpr parenthesizes the composite literals of x that the Go parser would take
+// for the start of the block when x is used in the header of an if, for or switch statement
+// (e.g. `for range T{}.xs {`): those on the operand spine of x that are not already enclosed
+// in parentheses, brackets or braces.
+func CheckHeaderExpr(x ast.Expr) ast.Expr {
+	switch v := x.(type) {
+	case *ast.CompositeLit:
+		switch v.Type.(type) {
+		case *ast.Ident, *ast.SelectorExpr, *ast.IndexExpr, *ast.IndexListExpr:
+			return &ast.ParenExpr{X: x}
+		}
+	case *ast.SelectorExpr:
+		v.X = CheckHeaderExpr(v.X)
+	case *ast.CallExpr:
+		v.Fun = CheckHeaderExpr(v.Fun)
+	case *ast.IndexExpr:
+		v.X = CheckHeaderExpr(v.X)
+	case *ast.IndexListExpr:
+		v.X = CheckHeaderExpr(v.X)
+	case *ast.SliceExpr:
+		v.X = CheckHeaderExpr(v.X)
+	case *ast.TypeAssertExpr:
+		v.X = CheckHeaderExpr(v.X)
+	case *ast.StarExpr:
+		v.X = CheckHeaderExpr(v.X)
+	case *ast.UnaryExpr:
+		v.X = CheckHeaderExpr(v.X)
+	case *ast.BinaryExpr:
+		v.X, v.Y = CheckHeaderExpr(v.X), CheckHeaderExpr(v.Y)
+	}
+	return x
+}
+
+// CheckHeaderStmt applies CheckHeaderExpr to the expressions of a simple statement used as
+// init or post statement of an if, for or switch statement.
+func CheckHeaderStmt(s ast.Stmt) ast.Stmt {
+	switch v := s.(type) {
+	case *ast.AssignStmt:
+		for i, x := range v.Lhs {
+			v.Lhs[i] = CheckHeaderExpr(x)
+		}
+		for i, x := range v.Rhs {
+			v.Rhs[i] = CheckHeaderExpr(x)
+		}
+	case *ast.ExprStmt:
+		v.X = CheckHeaderExpr(v.X)
+	case *ast.IncDecStmt:
+		v.X = CheckHeaderExpr(v.X)
+	case *ast.SendStmt:
+		v.Chan, v.Value = CheckHeaderExpr(v.Chan), CheckHeaderExpr(v.Value)
+	}
+	return s
+}
+
 // -----------------------------------------------------------------------------
 
 func AddrOf(v ast.Expr) ast.Expr {
